@@ -143,7 +143,7 @@ fn scheme_id(scheme: usize, n: u32) -> u32 {
         1 => 1_000_000 - n,
         2 => [3000, 3500, 4096, 5000, 4095, 4097, 6002, 2999, 8192, 1, 7000, 4094][(n as usize - 1) % 12] + 20_000 * ((n - 1) / 12),
         3 => 0x0040_0000 - 3 + n,
-        4 => 0xFFFF_FFF0 + n,
+        4 => 0xFFFF_FF00 + n,
         5 => 0xFFFF - 3 + n,
         // the first id high, the following ones climbing past it from below in steps of 900
         _ => if n == 1 { 10_000 } else { 900 * (n - 1) },
@@ -622,6 +622,17 @@ pub fn run(tier: Tier) -> Run {
                 }
             }
         }
+        // chains of typed values N deep (N = 1..=40) below each base type, then the consumers
+        for base in [TOp::TInt(64, 0), TOp::TInt(24, 0), TOp::TFloat(64), TOp::TInt(16, 1)] {
+            for n in 1..=40usize {
+                for tail in [vec![TOp::ConstLast(1)], vec![TOp::ConstLast(2)], vec![TOp::SwitchLast(1)], vec![TOp::SwitchLast(2)]] {
+                    let mut h = vec![base.clone()];
+                    h.extend(std::iter::repeat(TOp::UndefLast).take(n));
+                    h.extend(tail);
+                    hs.push(h);
+                }
+            }
+        }
         let res: Vec<Vec<Viol>> = hs
             .par_iter()
             .map(|h| {
@@ -639,6 +650,16 @@ pub fn run(tier: Tier) -> Run {
         run.outcome("composite_and_alias_histories", hs.len() as u64 * 3);
         for v in res {
             run.add_all(v);
+        }
+    }
+    // ---- re-entrancy: a consumer that runs a complete second parse from inside a callback of the first (every ordered pair
+    //      of 12 small binaries x 7 callback positions): both parses give what they give alone
+    {
+        let (n, bad) = crate::util::nested_parse_sweep();
+        run.outcome("nested_parses", n);
+        for (why, rep) in bad.into_iter().take(3) {
+            let class = why.split(':').next().unwrap_or("").to_string();
+            run.add(viol(format!("C10:nested-parse:{}", class), why, rep));
         }
     }
     // ---- header words: every version 0.0 .. 2.0 / 255.255 and id bounds 0, 1, 2, 3, 4, 5, 64, 2^16, 2^32-1 (below, at and
